@@ -324,7 +324,10 @@ func (l *Linter) lintSwitchStatement(stmt *ast.SwitchStatement, ctx *context.Con
 		for _, s := range c.Statements {
 			switch s.(type) {
 			case *ast.BreakStatement, *ast.FallthroughStatement:
-				break // parser already made sure break/fallthrough is at the end.
+				// parser already made sure break/fallthrough is at the end.
+				// Nothing to lint, but an ignore comment (e.g. falco-ignore-end) may be placed on it
+				l.ignore.SetupStatement(s.GetMeta())
+				l.ignore.TeardownStatement(s.GetMeta())
 			default:
 				l.lintStatement(s, ctx)
 			}
